@@ -114,6 +114,7 @@ func vNote(k string, v any)  { vR.notes = append(vR.notes, k+"="+fmt.Sprint(v)) 
 func vSymbolic() bool        { return false }
 func vObserve(k string, v any) { vR.obs = append(vR.obs, k+"="+fmt.Sprint(v)) }
 func vDrawCount() int        { return vR.nDraws }
+func vMaxDraws(k int)        {}
 func vGlobalRandUses() int   { return 0 }
 func vWork() int64           { return 0 }
 func vDrawsFrom(src *rand.PCGSource) int { return vR.srcs[src] }
@@ -193,7 +194,7 @@ func vScanNums(s string, f func(tok string, isNum bool)) {
 			i = j
 			continue
 		}
-		chunk += string(c)
+		chunk += s[i : i+1]
 		prevNum = false
 		i++
 	}
